@@ -212,7 +212,7 @@ func checkC18(w *World, r *Report) {
 							continue
 						}
 						for _, a := range s.Args() {
-							if a == v && (instrDominates(s.Instr, at) || s.Instr.Block() == at.Block()) {
+							if (a == v || sameCellValue(a, v)) && (instrDominates(s.Instr, at) || s.Instr.Block() == at.Block()) {
 								return true
 							}
 						}
